@@ -422,6 +422,8 @@ func kStructural(x *vc.Exec, lr *vc.LoadResult, repo string, res *vc.PassResult,
 	sink.Structural("internal", "frame", "id-tables-written-only-by-their-owners", []string{"C02", "C11", "C12", "C20"}, true, fmt.Sprintf("%d writes to the generators' id tables, all in newGenerator*/typeID/predID", nIDAcc))
 	// C20: the source-map flag only selects comment emission
 	checkSourceMapFrame(sink, lr, fns, pos)
+	// C17: file locations reach the output only as base names
+	checkPathFrame(sink, fns, pos)
 	res.Extra["frame_counts"] = counts
 	boundedBuildTag(sink, repo, res)
 }
